@@ -224,12 +224,50 @@ def logsum_rule(chk, fb, RID):
     a, b = [p_["name"] for p_ in f.params]
     conds = [n for n in f.all_nodes() if n["k"] == "ConditionalOperator"] + [n for n in f.all_nodes() if n["k"] == "IfStmt"]
     exps = [c for c in f.all_nodes() if is_call(c) and c["callee"]["name"] == "exp" and len(f.args(c)) == 1]
-    chk.floor(RID, "exp() calls in logsum", len(exps), 2)
+    chk.floor(RID, "exp() calls in logsum", len(exps), 1)
+    sub = local_inits(f)
+
+    def selected(n):
+        """for a local initialised as 'c ? x : y' with c an ordering test of the two operands: ('max'|'min') when it selects the
+        larger / smaller operand"""
+        n = strip(n)
+        if n["k"] != "DeclRefExpr" or n["decl"]["id"] not in sub:
+            return None
+        init = strip(sub[n["decl"]["id"]])
+        if init["k"] == "CXXFunctionalCastExpr" or init["k"] == "ImplicitCastExpr":
+            init = strip(kids(init)[0])
+        if is_call(init) and init["callee"]["name"] in ("max", "min") and len(f.args(init)) == 2 and {render(x) for x in f.args(init)} == {a, b}:
+            return init["callee"]["name"]
+        if init["k"] != "ConditionalOperator":
+            return None
+        c_, t_, e_ = kids(init)
+        c_ = strip(c_)
+        if c_["k"] == "DeclRefExpr" and c_["decl"]["id"] in sub:
+            c_ = strip(sub[c_["decl"]["id"]])
+        if c_["k"] != "BinaryOperator" or c_["op"] not in ("<", "<=", ">", ">="):
+            return None
+        l, r = render(kids(c_)[0]), render(kids(c_)[1])
+        if {l, r} != {a, b}:
+            return None
+        lo, hi = (l, r) if c_["op"] in ("<", "<=") else (r, l)     # when the test is true: lo <= hi
+        tv, ev = render(t_), render(e_)
+        if tv == hi and ev == lo:
+            return "max"
+        if tv == lo and ev == hi:
+            return "min"
+        return None
     for e in exps:
         arg = strip(f.args(e)[0])
         construct = "logsum-exp:" + render(arg)
         if not (arg["k"] == "BinaryOperator" and arg["op"] == "-"):
             chk.unknown(RID, f.key, construct, f.loc(e), "exponent is not a difference")
+            continue
+        sl, sr = selected(kids(arg)[0]), selected(kids(arg)[1])
+        if sl == "min" and sr == "max":
+            chk.proved(RID, f.key, construct, f.loc(e), "exp(smaller - larger): operands selected by an ordering test")
+            continue
+        if sl == "max" and sr == "min":
+            chk.refuted(RID, f.key, construct, f.loc(e), "logsum takes exp(larger - smaller): it shifts by the smaller operand, and a gap above ~709 overflows to +inf where ln(x+y) is finite", witness={"input": "logsum(0, 1000)"})
             continue
         small, large = render(kids(arg)[0]), render(kids(arg)[1])
         # path condition of this exp: walk up conditional operators / ifs
